@@ -1,5 +1,6 @@
 from __future__ import annotations
 
+import sys
 from functools import lru_cache
 from struct import Struct
 from typing import TYPE_CHECKING, Any, BinaryIO, Generic, TypeVar
@@ -36,12 +37,13 @@ class Packed(BaseType, Generic[T]):
             length = count * cls.size
         else:
             length = cls.size * count
-            data = stream.read(length)
-
-        fmt = _struct(cls.cs.endian, f"{count}{cls.packchar}")
+            # (a count no stream can hold, e.g. from a corrupted length field, is a premature end like any other)
+            data = stream.read(min(length, sys.maxsize))
 
         if len(data) != length:
             raise EOFError(f"Read {len(data)} bytes, but expected {length}")
+
+        fmt = _struct(cls.cs.endian, f"{count}{cls.packchar}")
 
         return [cls.__new__(cls, value) for value in fmt.unpack(data)]
 
